@@ -823,3 +823,112 @@ class C11(Spec):
 
     def simplifications(self, plan):
         return drive_engine.simplifications(plan)
+
+
+@register
+class C16(TreeSpec):
+    id = "C16"
+    judged = ("C16",)
+    own_checks = ("bankrupt_missed", "bankrupt_spurious", "bankrupt_sub", "bankrupt_fi", "bankrupt_residual", "bankrupt_algos_ran", "bankrupt_positions_after", "bankrupt_not_constant", "ledger_value", "ledger_pos", "ledger_cash")
+    tiers = {"quick": dict(runs=5000, builds=("py",), wall=75), "thorough": dict(runs=120000, builds=("py", "cy"), wall=1500)}
+    rule = (
+        "leveraged / short portfolios (flat and nested, positions held by grandchildren) meet a seeded price shock sized to push equity through, onto or just above zero on any date, with recovery afterwards; tree-driver runs add arbitrary op histories with leverage; "
+        "the flag is judged at every root update against the reference model's equity (must be set below -tol, must not be set above +tol, band inconclusive), all positions of the whole tree must be zero right after the liquidating update, the ledger must still reconcile "
+        "(liquidation at that date's prices, value changes only by closing costs), afterwards no live spy may run and positions / value / cash stay constant; sub-strategies and FI roots never flagged; non-trivial = a bankruptcy occurred or equity came within 50% of zero"
+    )
+
+    def gen(self, r, tier, i):
+        if i % 2:
+            return drive_engine.gen_bankrupt_plan(r, tier)
+        return drive_tree.gen_plan(r, "bankrupt" if i % 4 else "fi", tier)
+
+    def run(self, bt, plan):
+        if plan["driver"] == "engine":
+            sim = drive_engine.run_engine_plan(bt, plan, set(self.judged))
+            if sim.completed:
+                drive_engine.check_terminal(sim)
+            self._sim = sim
+        res = TreeSpec.run(self, bt, plan) if plan["driver"] != "engine" else self._result(sim, plan)
+        f = res["fired"]
+        res["nontrivial"] = bool(f.get("bankruptcy")) or (res["nontrivial"] and plan["cfg"].get("profile") == "bankrupt")
+        if f.get("bankruptcy"):
+            res["info"]["bankruptcies"] = 1
+        return res
+
+    def _result(self, sim, plan):
+        info = {"stop_" + str(sim.stop_reason): 1, "driver_engine": 1, "observations": sim.nobs, "trades": sim.model.ntrades, "root_updates": sim.root_updates, "outcome_" + plan["cfg"].get("outcome", "?"): 1}
+        for k, v in sim.inconclusive.items():
+            info["inconclusive_" + k] = v
+        return dict(viol=sim.viol, fired=sim.fired, nontrivial=(sim.model.ntrades >= 1 and sim.ticks >= 3), states=sim.states, bigrams=sim.bigrams, dates=sim.ticks, steps=len(sim.spy_log) + sim.root_updates, info=info)
+
+
+@register
+class C06(Spec):
+    id = "C06"
+    tiers = {"quick": dict(runs=3000, builds=("py",), wall=75), "thorough": dict(runs=80000, builds=("py", "cy"), wall=1500)}
+    rule = (
+        "real Backtest.run()s in which Rebalance / RebalanceOverTime sit behind an oracle wrapper and are fed plan-controlled target vectors (long, short, sum <= 1, targets appearing and disappearing, sub-strategy targets funded / unfunded / invested, "
+        "optional temp['cash']) on successive dates of moving prices, so that every rebalance starts from a drifted non-flat portfolio; at the algo's return every target is worth (1-c)*w*base exactly (fractional, costless) or within one unit plus costs, "
+        "non-targets are closed, cash is the remainder, a sub-strategy's internal fractions are unchanged by the transfer; distinct = plan digest; non-trivial = >= 2 judged rebalances"
+    )
+    assumptions = ["base = node value read on entry of the algo", "tolerance otherwise: one unit (integer mode) + costs paid during the call + cost of one more unit", "runs aborted by the known sizing-search exceptions are counted as blocked"]
+
+    def gen(self, r, tier, i):
+        return drive_engine.gen_rebalance_plan(r, tier)
+
+    def run(self, bt, plan):
+        from .monitors.c06 import C06Monitor
+
+        mon = {}
+
+        def prepare(sim):
+            mon["m"] = C06Monitor(sim)
+            sim.wrap_monitor = mon["m"]
+
+        sim = drive_engine.run_engine_plan(bt, plan, {"C06"}, prepare=prepare)
+        info = {"stop_" + str(sim.stop_reason): 1, "rebalances_judged": mon["m"].judged if mon else 0, "trades": sim.model.ntrades}
+        return dict(viol=sim.viol, fired=sim.fired, nontrivial=bool(mon and mon["m"].judged >= 2), states=sim.states, dates=sim.ticks, steps=sim.root_updates, info=info)
+
+    def owns(self, check):
+        return check.startswith("c06_")
+
+    def simplifications(self, plan):
+        return drive_engine.simplifications(plan)
+
+
+@register
+class C17(TreeSpec):
+    id = "C17"
+    judged = ("C17",)
+    own_checks = ("notional", "weight_fi", "index_fi", "rows_notional_value", "rows_coupon", "rows_holding_cost", "rows_cash", "rows_value", "ledger_cash", "ledger_value", "ledger_pos", "cash_ledger", "conservation", "bankrupt_fi",
+                  "c17_notional_target", "c17_not_closed", "c17_target_missing", "c17_renormalized")
+    tiers = {"quick": dict(runs=5000, builds=("py",), wall=75), "thorough": dict(runs=120000, builds=("py", "cy"), wall=1500)}
+    rule = (
+        "fixed-income trees with all five security types, multipliers, irregular / zero coupon schedules and asymmetric long/short holding costs: op-level runs (transact / rebalance-with-base / close / flatten / spread, duplicate ticks, intraday re-trades) against the reference ledger "
+        "(notional per type, weights = notional fractions, carry accrued on the end-of-day position and swept into the parent's cash on the next date exactly once, additive index on previous notional) and real Backtest runs where SetNotional + Rebalance sit behind an oracle wrapper "
+        "(notional_i = w_i x set notional; non-targets closed; RenormalizedFixedIncomeResult formula); distinct = plan digest; non-trivial = >= 1 trade and >= 2 ticks"
+    )
+
+    def gen(self, r, tier, i):
+        if i % 3 == 2:
+            return drive_engine.gen_fi_plan(r, tier)
+        return drive_tree.gen_plan(r, "fi", tier)
+
+    def run(self, bt, plan):
+        if plan["driver"] != "engine":
+            return TreeSpec.run(self, bt, plan)
+        from .monitors import c17
+
+        mon = {}
+
+        def prepare(sim):
+            mon["m"] = c17.C17Monitor(sim)
+            sim.wrap_monitor = mon["m"]
+
+        sim = drive_engine.run_engine_plan(bt, plan, set(self.judged), prepare=prepare)
+        if sim.completed and sim.stop_reason is None:
+            c17.check_renormalized(sim)
+        info = {"stop_" + str(sim.stop_reason): 1, "driver_engine": 1, "fi_rebalances_judged": mon["m"].judged if mon else 0, "trades": sim.model.ntrades, "observations": sim.nobs}
+        for k, v in sim.inconclusive.items():
+            info["inconclusive_" + k] = v
+        return dict(viol=sim.viol, fired=sim.fired, nontrivial=(sim.model.ntrades >= 1 and sim.ticks >= 3), states=sim.states, bigrams=sim.bigrams, dates=sim.ticks, steps=sim.root_updates, info=info)
